@@ -8,6 +8,32 @@ fn stub_fmt_write(_out: &mut dyn core::fmt::Write, _args: core::fmt::Arguments<'
 	Ok(())
 }
 
+/// Assumed contract on std::io::copy (A1b): "reads from reader until EOF, writing everything to
+/// writer, returns the number of bytes copied".  std's implementation goes through an 8 KiB
+/// stack buffer that is zero-initialised in a loop (8192 unwindings per call) and Linux
+/// `kernel_copy` specialisations; the model is the same read/write loop with an 8-byte buffer.
+fn model_io_copy<R: ?Sized + std::io::Read, W: ?Sized + std::io::Write>(
+	reader: &mut R,
+	writer: &mut W,
+) -> std::io::Result<u64> {
+	let mut total: u64 = 0;
+	let mut buf = [0u8; 8];
+	loop {
+		let n = match reader.read(&mut buf) {
+			Ok(n) => n,
+			Err(e) => return Err(e),
+		};
+		if n == 0 {
+			break;
+		}
+		if let Err(e) = writer.write_all(&buf[..n]) {
+			return Err(e);
+		}
+		total += n as u64;
+	}
+	Ok(total)
+}
+
 /// A fixed-capacity byte sink (cheaper for CBMC than Vec<u8>); records everything written.
 struct ArrSink<const N: usize> {
 	buf: [u8; N],
@@ -63,21 +89,10 @@ impl<'a> Chunked<'a> {
 		self.pos
 	}
 }
-impl<'a> std::io::Read for Chunked<'a> {
-	fn read(&mut self, out: &mut [u8]) -> std::io::Result<usize> {
-		use std::io::BufRead;
-		let n = {
-			let avail = self.fill_buf()?;
-			let n = if avail.len() < out.len() { avail.len() } else { out.len() };
-			out[..n].copy_from_slice(&avail[..n]);
-			n
-		};
-		self.consume(n);
-		Ok(n)
-	}
-}
-impl<'a> std::io::BufRead for Chunked<'a> {
-	fn fill_buf(&mut self) -> std::io::Result<&[u8]> {
+impl<'a> Chunked<'a> {
+	/// choose the next chunk when the previous one is exhausted (infallible: keeping `io::Error`
+	/// paths out of the double keeps std's `default_read_exact` error arm unreachable for CBMC)
+	fn refill(&mut self) {
 		if self.pos >= self.chunk_end && self.pos < self.data.len() {
 			let left = self.data.len() - self.pos;
 			let k: usize = if self.fixed != 0 {
@@ -89,6 +104,25 @@ impl<'a> std::io::BufRead for Chunked<'a> {
 			};
 			self.chunk_end = self.pos + k;
 		}
+	}
+}
+impl<'a> std::io::Read for Chunked<'a> {
+	fn read(&mut self, out: &mut [u8]) -> std::io::Result<usize> {
+		self.refill();
+		let avail = self.chunk_end - self.pos;
+		let n = if avail < out.len() { avail } else { out.len() };
+		let mut i = 0;
+		while i < n {
+			out[i] = self.data[self.pos + i];
+			i += 1;
+		}
+		self.pos += n;
+		Ok(n)
+	}
+}
+impl<'a> std::io::BufRead for Chunked<'a> {
+	fn fill_buf(&mut self) -> std::io::Result<&[u8]> {
+		self.refill();
 		Ok(&self.data[self.pos..self.chunk_end])
 	}
 	fn consume(&mut self, amt: usize) {
